@@ -60,12 +60,22 @@ def build():
     A(Op("scale_by_hs", lambda x, a: x.spec.scale_by_hs("2*hs", hs_min=a["hs_min"]), kind="spectra", scale="skip", rot="relabel"))
     A(Op("ptm1", lambda x, a: x.spec.partition.ptm1(a["wspd"], a["wdir"], a["dpt"], swells=a["swells"]), kind="parts", watershed=True, needs_wind=True, min_nf=2, scale="lin", rot="skip"))
     A(Op("ptm2", lambda x, a: x.spec.partition.ptm2(a["wspd"], a["wdir"], a["dpt"], swells=a["swells"]), kind="parts", watershed=True, needs_wind=True, min_nf=2, scale="lin", rot="skip"))
+    A(Op("hp01", lambda x, a: x.spec.partition.hp01(a["wspd"], a["wdir"], a["dpt"], swells=a["swells"]), kind="parts", watershed=True, needs_wind=True, min_nf=2, scale="lin", rot="skip"))
     A(Op("ptm3", lambda x, a: x.spec.partition.ptm3(parts=a["swells"] + 1), kind="parts", watershed=True, min_nf=2, scale="lin", rot="relabel"))
     A(Op("ptm3_smooth", lambda x, a: x.spec.partition.ptm3(parts=a["swells"] + 1, smooth=True, freq_window=1, dir_window=1), kind="parts", watershed=True, min_nf=2, scale="lin", rot="relabel"))
     A(Op("ptm4", lambda x, a: x.spec.partition.ptm4(a["wspd"], a["wdir"], a["dpt"], agefac=a["agefac"]), kind="parts", needs_wind=True, scale="lin", rot="skip"))
     A(Op("ptm5", lambda x, a: x.spec.partition.ptm5(a["fcut"]), kind="parts", needs_dir=False, min_nf=3, scale="lin", rot="relabel"))
     A(Op("bbox", lambda x, a: x.spec.partition.bbox(a["bboxes"]), kind="parts", min_nf=2, scale="lin", rot="skip"))
     return {o.name: o for o in ops}
+
+
+def _angle(rng, x):
+    """Rotation angle: any real, or a whole number of direction bins (exact shift of the grid)."""
+    a = float(rng.uniform(-400, 400))
+    if "dir" in x.dims and x.sizes["dir"] > 1 and rng.random() < 0.4:
+        d = np.sort(x.dir.values.astype("float64"))
+        a = float((d[1] - d[0]) * int(rng.integers(-12, 13)))
+    return a
 
 
 def make_aux(rng, x, xr):
@@ -81,7 +91,7 @@ def make_aux(rng, x, xr):
         "agefac": float(rng.uniform(1.0, 2.2)),
         "swells": int(rng.integers(1, 4)),
         "depth0": float(rng.uniform(5, 200)),
-        "angle": float(rng.uniform(-400, 400)),
+        "angle": _angle(rng, x),
         "hs_min": 0.0,
     }
     if f.size >= 2:
@@ -93,5 +103,14 @@ def make_aux(rng, x, xr):
     a["dmin"], a["dmax"] = 45.0, 200.0
     if f.size >= 2:
         fm = float((f[0] + f[-1]) / 2)
-        a["bboxes"] = [dict(fmin=float(f[0]), fmax=fm, dmin=10.0, dmax=170.0), dict(fmin=fm * 1.0001, fmax=float(f[-1]), dmin=180.0, dmax=350.0)]
+        b1, b2 = dict(fmin=float(f[0]), fmax=fm, dmin=10.0, dmax=170.0), dict(fmin=fm * 1.0001, fmax=float(f[-1]), dmin=180.0, dmax=350.0)
+        # open sides spelled the documented ways: key left out, or None (only sides whose default keeps the boxes disjoint)
+        for b, keys in ((b1, ("fmin", "dmin")), (b2, ("fmax", "dmax"))):
+            for k in keys:
+                u = rng.random()
+                if u < 0.25:
+                    del b[k]
+                elif u < 0.35:
+                    b[k] = None
+        a["bboxes"] = [b1, b2]
     return a
